@@ -45,6 +45,27 @@ def observations(hist, root, toks, d, singletons):
     chain = []                 # path of (key, index) to the current block
     counts = [{}]
     rep_seen = {}
+    enclosing_of = {}
+    # block identity of every attr item (needed to recognise a later duplicate in the same block)
+    _chain, _counts = [], [{}]
+    for i0, a0 in enumerate(acts, start=1):
+        if a0["a"] == "attr":
+            try:
+                enclosing_of[i0] = id(nav_block(d, _chain))
+            except Exception:  # noqa: BLE001
+                pass
+        elif a0["a"] == "open":
+            t0 = a0["type"]
+            if t0 in singletons:
+                _chain.append((t0, None))
+            else:
+                c0 = _counts[-1]
+                c0[t0] = c0.get(t0, 0) + 1
+                _chain.append((plural(t0), c0[t0] - 1))
+            _counts.append({})
+        elif a0["a"] == "end":
+            _chain.pop()
+            _counts.pop()
 
     def pos_of(block, key):
         pd = block.get("__position__") if hasattr(block, "get") else None
@@ -89,6 +110,11 @@ def observations(hist, root, toks, d, singletons):
                 missing = missing or "attr:" + a["key"]
                 continue
             vals = [{"tok": ti + 1, "line": lc[0], "col": lc[1]} for ti, lc in zip(tis[1:], pd.get("values", []))]
+            # a keyword given twice keeps its last value: the recorded position is that of the statement whose value is kept
+            later = any(b["a"] == "attr" and b["key"] == a["key"] and enclosing_of.get(j2) == id(blk)
+                        for j2, b in enumerate(acts[i:], start=i + 1))
+            if later:
+                continue
             if len(pd.get("values", [])) != len(tis) - 1:
                 missing = missing or "values-count:" + a["key"]
             obs.append({"what": "keyword", "name": a["key"], "tok": tis[0] + 1, "line": pd["line"], "col": pd["column"], "vals": vals})
@@ -145,7 +171,7 @@ def run(tier):
     loads = impl.loader(include_position=True, expand_includes=False)
     cfg = tlc.cfg_text(init="SInit", next_="SNext",
                        constants={"MaxDepth": 5, "MaxSteps": 16 if quick else 40, "Ids": {1, 2, 3, 4}, "StepPosts": False,
-                                  "Mode": "nodup", "MaxPos": 12, "VecLen": 24, "MaxDevs": 1}, invariants=["SEmit"])
+                                  "Mode": "dupattr", "MaxPos": 12, "VecLen": 24, "MaxDevs": 1}, invariants=["SEmit"])
     r = tlc.run("Surface", cfg, tag="c08docs", mode="simulate", simulate="num=%d" % (1500 if quick else 40000),
                 depth=60, seed=seed + 8, timeout=1800)
     ck.add_tlc("c08docs", r)
